@@ -364,8 +364,10 @@ CLAIMED["C07"] = {
     "post-rescaling / logit; default rescale bounds, no inversion, no "
     "offset), pre-rescalings other than log, "
     "inversion (split / duplicate), update_bounds, the prime bounds under "
-    "inversion, the round trip of Angle (needs facts about arctan2 / sqrt "
-    "that are not proved), Angle with a sampled radius, "
+    "inversion, Angle with a sampled radius (the round trip of Angle is "
+    "proved MODULO two stated library facts -- arctan2 / sqrt invert the "
+    "polar map -- which are hypotheses of the lemma, checked numerically "
+    "in the thorough tier's library-conformance run), "
     "ToCartesian, AnglePair, CombinedReparameterisation's update / prior "
     "methods and its order checks, "
     "all GW reparameterisations, logit with eps "
